@@ -155,11 +155,11 @@ def run(tier, seed, t0):
         "main_memcheck_runs": (sum(v for k, v in m.bins.items() if k.startswith("cases@main/memcheck")), n_vg),
         "main_iterations": (m.bins.get("main_iterations", 0), 20 * n_main),
         "simrun_iterations": (m.bins.get("iterations", 0), 30 * n_sim), "splits": (m.bins.get("splits", 0), 200), "merges": (m.bins.get("merges", 0), 200),
-        "divisions": (m.bins.get("divisions", 0), 5), "removals": (m.bins.get("removals", 0), 2), "removal_among_coupled_cells": (m.bins.get("family:removal_among_coupled_cells", 0), 3), "drifting_tissues": (m.bins.get("family:drifting_adhering_grid", 0), 3), "contact_pairs": (m.bins.get("contact_pairs", 0), 10000),
+        "divisions": (m.bins.get("divisions", 0), 5), "removals": (m.bins.get("removals", 0), 2), "removal_among_coupled_cells": (m.bins.get("family:removal_among_coupled_cells", 0), 3), "drifting_tissues": (m.bins.get("family:drifting_adhering_grid", 0), 3), "unstable_runs_not_stopped_by_the_harness": (m.bins.get("family:vanishing_cell_unstable_run", 0), 3), "contact_pairs": (m.bins.get("contact_pairs", 0), 10000),
         "runs_with_initial_triangulation": (m.bins.get("with_initial_triangulation", 0), 2),
     }
     return R.finish(ID, tier, seed, m,
-                    "scenario = family (8) x random physical parameters around the repository's sample file x iterations x thread count; executed by the "
+                    "scenario = family (12, one of them a run that becomes unstable and is left to itself) x random physical parameters around the repository's sample file x iterations x thread count; executed by the "
                     "unmodified main under ASan+UBSan (ncpu 1/4/16 via taskset) and memcheck, and by the monitored solver under ASan; non-trivial = the run "
                     "performed >= 10 iterations (or ended with an exception reported by main); distinct = hash of (family, iterations, operation counters)",
                     t0, ["gcc ASan/UBSan runtime, valgrind 3.19 memcheck", "a report counts when it carries a repository frame (memcheck) or is any ASan/UBSan/libstdc++-assertion abort"],
